@@ -83,6 +83,7 @@ def run(cx, rep):
         unsliced = [r for r in rde if not any(n["type"] == "CallExpression" and method_call(n) and method_call(n)[1] == "slice" and unparen(method_call(n)[0]) is r for n in walk(sp))]
         rep.ob("C12.1", "no-unsliced-report", not unsliced, "safeParse returns an unsliced reportDecodeError result", mod.loc(sp))
     # ---------------------------------------------------------------- C12.2
+    rep.rule("C12.11", "a reporter that delegates only to the members that reject has a branch for each rejection reason of its own")
     rep.rule("C12.2", "the reporter mirrors the validator's rejection tests")
     n_cls = 0
     for cname, c in sorted(fam.concrete().items()):
@@ -114,6 +115,21 @@ def run(cx, rep):
         rep.ob("C12.2", cname, not missing,
                "%s.validate rejects on %s but %s.reportDecodeError has no corresponding test and does not end in an unconditional error: such a value is rejected with an empty error list" % (
                    cname, sorted(missing), cname), mod.loc(r), sample={"class": cname, "validate_tests": sorted(map(str, av)), "report_tests": sorted(map(str, ar)), "always_reports": bool(always)})
+        # C12.11: a reporter that asks a child for its errors only when the child's own validate() fails reports nothing
+        # for a value every child accepts - then each of the class's OWN rejection reasons needs a branch of its own
+        cond_calls = []
+        for n in walk(r["function"]):
+            if n["type"] == "CallExpression" and method_call(n) and method_call(n)[1] == "reportDecodeError" and s(method_call(n)[0]) != "this":
+                ka = ts_common.known_atoms(r["function"], n)
+                if any(".validate(" in a_ for a_ in ka):
+                    cond_calls.append(n)
+        if cond_calls:
+            own = {a for a in av if a not in ar and not (a[0] == "typeof" and ("typeof", a[1]) in ar) and a[0] != "child"}
+            uncond = [n for n in walk(r["function"]) if n["type"] == "CallExpression" and method_call(n) and method_call(n)[1] == "reportDecodeError"
+                      and s(method_call(n)[0]) != "this" and n not in cond_calls]
+            rep.ob("C12.11", cname, not own or always or bool(uncond),
+                   "%s.reportDecodeError asks its members for errors only when the member's own validate() fails, but %s.validate also rejects on %s, for which the reporter has no branch: a value every member accepts is rejected with an EMPTY error list" % (
+                       cname, cname, sorted(map(str, own))), mod.loc(cond_calls[0]), sample={"class": cname, "own_reasons_without_branch": sorted(map(str, own))})
         # loops over the input: the reporter must not stop earlier than the validator
         def loop_tests(fn, inp):
             out = set()
@@ -238,6 +254,9 @@ def run(cx, rep):
     # ---------------------------------------------------------------- C12.7
     rep.rule("C12.7", "reportDecodeError(): every element of an array-valued constructor argument is accounted for (no fixed-size prefix)")
     ts_common.truncation_rule(cx, rep, "C12.7", ['reportDecodeError'])
+    # ---------------------------------------------------------------- C12.10
+    rep.rule("C12.10", "rendering errors never converts a value of unknown type to a string implicitly where it can be a symbol or an object (= C03.16)")
+    ts_common.implicit_to_string_rule(cx, rep, "C12.10")
     # ---------------------------------------------------------------- C12.9
     rep.rule("C12.9", "collecting errors never spreads an input-sized list into call arguments (= C03.11)")
     ts_common.unbounded_spread_rule(cx, rep, "C12.9", ['reportDecodeError'])
